@@ -26,14 +26,25 @@ template <size_t K, size_t A, size_t B>
 using HE_D = xr::hazard_eras<>::with<xp::allocation_strategy<xr::he_allocation::dynamic_strategy<K, A, B>>>;
 
 template <size_t F>
-using EBR = xr::epoch_based<xp::scan_frequency<F>>;
+using EBR = typename xr::epoch_based<>::template with<xp::scan_frequency<F>>;
 template <size_t F>
-using NEBR = xr::new_epoch_based<xp::scan_frequency<F>>;
+using NEBR = typename xr::new_epoch_based<>::template with<xp::scan_frequency<F>>;
 template <size_t F>
-using DEBRA = xr::debra<xp::scan_frequency<F>>;
+using DEBRA = typename xr::debra<>::template with<xp::scan_frequency<F>>;
 template <size_t F, class Scan, class Abandon, xr::region_extension RE>
 using GEB = xr::generic_epoch_based<>::with<xp::scan_frequency<F>, xp::scan<Scan>, xp::abandon<Abandon>, xp::region_extension<RE>>;
 
 using QSBR = xr::quiescent_state_based;
 using STAMP = xr::stamp_it;
+} // namespace rc
+
+// the policies are really in effect (a later policy in a `with` list does not override an earlier one)
+namespace rc {
+template <class T> struct traits_of;
+template <class Tr> struct traits_of<xr::generic_epoch_based<Tr>> { using type = Tr; };
+static_assert(traits_of<EBR<0>>::type::scan_frequency == 0, "scan_frequency policy not applied");
+static_assert(traits_of<NEBR<1>>::type::scan_frequency == 1, "scan_frequency policy not applied");
+static_assert(traits_of<DEBRA<2>>::type::scan_frequency == 2, "scan_frequency policy not applied");
+static_assert(traits_of<GEB<2, xr::scan::one_thread, xr::abandon::always, xr::region_extension::lazy>>::type::scan_frequency == 2, "");
+static_assert(traits_of<GEB<2, xr::scan::one_thread, xr::abandon::always, xr::region_extension::lazy>>::type::region_extension_type == xr::region_extension::lazy, "");
 } // namespace rc
